@@ -17,7 +17,7 @@ from simkit.core import HarnessError
 
 PROP = "C32"
 LEVEL = "fault_enumeration"
-TIERS = {"quick": dict(runs=64, wall=900, chunk=1), "thorough": dict(runs=600, wall=3400, chunk=1)}
+TIERS = {"quick": dict(runs=64, wall=900, chunk=1), "thorough": dict(runs=400, wall=5400, chunk=1)}
 TIME_UNIT = "tampered archives parsed (no clock in the code under test)"
 RULE = ("one evaluation = one v1-signed APK with exactly one stored byte altered in the .SF entry or in the signature value / "
         "signed attributes / signer id of its PKCS#7 block, archive rewritten, then APK(raw).get_certificate_der(block); the "
@@ -34,7 +34,7 @@ ASSUMPTIONS = ["only the tamper half of the property is decided here; the positi
                "PKCS#7 blocks with more than one SignerInfo are skipped in this version"]
 
 SIG_RE = re.compile(r"\AMETA-INF/(?s:.)*\.(DSA|EC|RSA)\Z")
-MAX_FAULTS_PER_WORKER = {"quick": 6000, "thorough": 60000}
+MAX_FAULTS_PER_WORKER = {"quick": 6000, "thorough": 20000}
 
 _CANDIDATES = None
 
